@@ -166,6 +166,108 @@ def C17(ctx):
             ctx.check("offset within input, tag read from the offset", ok, f"decode({hx(x)}, flatten={fl}, simple={si}): offset={e.offset} tag={e.tag!r}")
         except Exception:  # noqa: BLE001
             pass
+    raising_convert(ctx, R)
+
+
+class _AppError(Exception):
+    """an application exception raised by a conversion function"""
+
+
+def _outcome(call):
+    try:
+        return ("ok", call())
+    except BaseException as e:  # noqa: BLE001
+        return ("exc", e)
+
+
+def raising_convert(ctx, R):
+    """A decode error must point at a real fault of the input even when the conversion function fails: the
+    k-th call of convert raises; whatever decode raises then, a DecodeError it creates itself may only be the one
+    the plain decode of the same input raises.  When convert raises a DecodeError of its own (a nested decode of
+    a proprietary value), the error leaves with the top-level tree of the objects completed before that call."""
+    n = 0
+    for _ in range(ctx.n(1500, 15000)):
+        simple = R.random() < .3
+        items = gens.gen_cst(R, R.choice([0, 1, 2, 3, 4]), simple, maxval=R.choice([1, 2, 12]))
+        x = gens.print_cst(items)
+        mutated = R.random() < .35
+        if mutated:
+            x = gens.mutate(R, x)
+        for fl in (False, True):
+            rec = gens.Recorder()
+            plain = _outcome(lambda: tlv.decode(x, flatten=fl, simple=simple, convert=rec))
+            ncalls = len(rec.log)
+            if plain[0] == "exc" and not isinstance(plain[1], tlv.DecodeError):
+                continue                                 # the C09 check reports it
+            ks = sorted(k for k in {1, ncalls, ncalls + 1, R.randrange(1, ncalls + 2)} if k >= 1)
+            for k in ks:
+                kind = R.choice(["index", "index", "key", "value", "type", "app", "lookup", "decode", "decode"])
+                if kind == "decode":
+                    try:
+                        tlv.decode(R.choice([b"\x9f", b"\x9c\x05\x01", b"\xe0\x81", b"\x9c\x82\x01"]), simple=R.random() < .3)
+                    except tlv.DecodeError as ex:
+                        exc = ex
+                    inner_tlv = exc.tlv
+                else:
+                    exc = {"index": IndexError("index out of range"), "key": KeyError("9F02"), "value": ValueError("bad value"),
+                           "type": TypeError("bad type"), "app": _AppError("refused"), "lookup": LookupError("x")}[kind]
+                rc = gens.RaisingConv(k, exc)
+                got = _outcome(lambda: tlv.decode(x, flatten=fl, simple=simple, convert=rc))
+                what = f"decode({hx(x)}, flatten={fl}, simple={simple}, convert raising {type(exc).__name__} at call {k})"
+                n += 1
+                if k <= ncalls:
+                    # convert was reached before any fault: nothing decode reports on its own can be true of the input
+                    own = got[0] == "exc" and isinstance(got[1], tlv.DecodeError) and got[1] is not exc
+                    ctx.check("no decode error of the library's own when only convert failed", not own,
+                              what + (f": DecodeError offset={got[1].offset} tag={got[1].tag!r} {got[1].msg!r}" if own else ""))
+                    ctx.check("decode does not return when convert raised", got[0] == "exc", what)
+                    if kind == "decode" and got[0] == "exc" and got[1] is exc and not mutated:
+                        want = gens.cst_partial(items, k, fl)
+                        ok = exc.tlv == want and _order_list(exc.tlv) == _order_list(want)
+                        ctx.check("error leaving decode carries the top-level tree completed so far", ok,
+                                  what + f": tlv={core_show(exc.tlv)} want={core_show(want)}")
+                else:
+                    # convert never failed: same outcome as the plain run
+                    if plain[0] == "ok":
+                        ok = got[0] == "ok" and got[1] == plain[1] and _order_list(got[1]) == _order_list(plain[1])
+                    else:
+                        e0 = plain[1]; e1 = got[1]
+                        ok = (got[0] == "exc" and isinstance(e1, tlv.DecodeError) and (e1.offset, e1.tag, e1.msg) == (e0.offset, e0.tag, e0.msg)
+                              and e1.tlv == e0.tlv)
+                    ctx.check("a convert that does not fail leaves the outcome unchanged", ok, what)
+    ctx.extra["raising_convert_runs"] = n
+
+
+def _order_list(d):
+    out = []
+    for k, v in d.items():
+        out.append(k)
+        if hasattr(v, "items"):
+            out.append(_order_list(v))
+    return out
+
+
+def core_show(d):
+    try:
+        return "{" + ",".join(k + ":" + (core_show(v) if hasattr(v, "items") else bytes(v).hex().upper()) for k, v in d.items()) + "}"
+    except Exception:  # noqa: BLE001
+        return repr(d)[:200]
+
+
+def wrappers(t):
+    """the non-plain container / value classes in a tree (the operation line does not carry them)"""
+    seen = set()
+
+    def walk(d):
+        if type(d) is not dict:
+            seen.add(type(d).__name__)
+        for v in d.values():
+            if hasattr(v, "items"):
+                walk(v)
+            elif type(v) not in (str, bytes, bytearray):
+                seen.add(type(v).__name__)
+    walk(t)
+    return (" [python classes: " + ",".join(sorted(seen)) + "]") if seen else ""
 
 
 def norm_tree(t):
@@ -182,8 +284,14 @@ def ref_encode(t, simple):
     for k, v in t.items():
         tag = bytes.fromhex(k)
         val = ref_encode(v, simple) if hasattr(v, 'items') else (bytes.fromhex(v) if isinstance(v, str) else bytes(v))
+        if simple and len(val) > 255:
+            raise NoEncoding(k)
         out += tag + (bytes([len(val)]) if simple else gens.ber_len(len(val))) + val
     return out
+
+
+class NoEncoding(Exception):
+    """the tree has no encoding in simple mode (some content exceeds 255 bytes)"""
 
 
 def has_dup_tags(t):
@@ -246,14 +354,18 @@ def C10(ctx):
         if not isinstance(e, bytes):
             ctx.check("encode returns bytes", False, f"encode({tree_tokens(t)[:200]}) returned {type(e).__name__}")
             continue
-        ctx.check("canonical form", e == ref_encode(t, simple), f"tlv.encode {'s' if simple else '-'} {tree_tokens(t)[:400]}")
+        try:
+            want_e = ref_encode(t, simple)
+        except NoEncoding:
+            want_e = None                               # accepted although no simple-mode encoding exists
+        ctx.check("canonical form", e == want_e, f"tlv.encode {'s' if simple else '-'} {tree_tokens(t)[:400]}{wrappers(t)}")
         try:
             back = tlv.decode(e, simple=simple)
         except Exception as ex:  # noqa: BLE001
             back = repr(ex)
         want = norm_tree(t)
         ctx.check("decode(encode(t)) = normalise(t)", back == want and (has_dup_tags(t) or list(_order(back)) == list(_order(want))),
-                  f"tlv.encode {'s' if simple else '-'} {tree_tokens(t)[:400]}")
+                  f"tlv.encode {'s' if simple else '-'} {tree_tokens(t)[:400]}{wrappers(t)}")
         nrt += 1
     ctx.extra["round_trips"] = nrt
     for t, simple in bad:
@@ -336,8 +448,8 @@ def C18(ctx):
             want = gens.cst_flat(items)
             ctx.check("flatten = primitives in input order, last wins", fl == want and list(fl) == list(want), tag + " flatten")
         for flat in (False, True):
-            rec = gens.Recorder()
-            conv = tlv.decode(x, flatten=flat, simple=simple, convert=rec)
+            rec = gens.make_recorder(nlaw + flat)
+            conv = tlv.decode(x, flatten=flat, simple=simple, convert=gens.conv_arg(rec))
             plain = tlv.decode(x, flatten=flat, simple=simple)
             def mp_(d):
                 return {k: (mp_(v) if hasattr(v, 'items') else bytes.fromhex(k) + b":" + v) for k, v in d.items()}
